@@ -400,9 +400,11 @@ def coq_eval_mismatches(prop_id, imports, triples, shard=250, timeout=2400):
     Writes shards under coq/_cases/<prop>/, compiles them in parallel with
     coqc (vm_compute), returns the sorted list of mismatching indices.
     """
-    d = os.path.join(COQ, "_cases", prop_id)
+    d = os.path.join(COQ, "_cases", f"{prop_id}-{os.getpid()}")   # per process: concurrent runs must not share it
     shutil.rmtree(d, ignore_errors=True)
     os.makedirs(d)
+    import atexit
+    atexit.register(shutil.rmtree, d, True)
     names = []
     for si in range(0, len(triples), shard):
         chunk = triples[si:si + shard]
@@ -443,7 +445,7 @@ def coq_eval_mismatches(prop_id, imports, triples, shard=250, timeout=2400):
 
 def coq_eval_terms(prop_id, imports, terms, timeout=300):
     """Evaluate a few model terms and return their printed normal forms (for replay files)."""
-    d = os.path.join(COQ, "_cases", prop_id)
+    d = os.path.join(COQ, "_cases", f"{prop_id}-{os.getpid()}")
     os.makedirs(d, exist_ok=True)
     path = os.path.join(d, "show.v")
     with open(path, "w") as f:
